@@ -89,6 +89,29 @@ CHECKS = {
         ref="DESIGN.md 6/C12",
         note=NOTE + "the tetra model is hand-written and tied by exact differential comparison (np.unique semantics re-implemented).",
         technique="Lean 4 proof (ring identities per tetrahedron, counting/parity over the face list) tied by exact differential driver"),
+    "C10": dict(
+        text="Theorems about the model of orient_ (pairing, signed neighbour matrix, re-seeded flood, swap, global flip): the result is the "
+             "input with some triangles' first two vertices swapped and possibly all reversed (order, vertex sets kept; the count returned "
+             "is the number of triangles whose winding changed); for every list of >= 3 triangles with distinct vertices that is "
+             "edge-manifold, orientable and in which every triangle has a neighbour, the flood never cancels, terminates within 2*tdim+2 "
+             "rounds covering every triangle (any number of components) and the result is oriented; closed results have volume >= 0; a "
+             "second call returns 0 and changes nothing; an edge in three triangles forces ValueError. Model compared exactly (t and "
+             "count, non-termination observable through killable workers) on all orientable families x flip patterns.",
+        ref="DESIGN.md 6/C10",
+        note=NOTE + "the orient_ model is hand-written and tied by exact differential comparison; np.unique/lexsort/SciPy product semantics re-implemented. "
+             "The two-identical-triangles pillow is excluded (TriaMesh cannot hold fewer than 3 triangles).",
+        technique="Lean 4 proof (flood invariant by induction over rounds, counting/pigeonhole) tied by exact differential driver with killable workers"),
+    "C20": dict(
+        text="State-machine theorems: TriInv/TetInv (cached adjacency = constructor's) holds initially and is preserved by every step, hence "
+             "after ANY operation list (induction, no length bound), so every query equals the query on a fresh mesh; the step function is "
+             "parametric in the table 'does the method re-run the constructor', which is re-extracted from the source by AST analysis on "
+             "every run and discharged by decide (writers of t re-initialise; vertex-only mutators do not store t; no public non-underscore "
+             "function writes through a parameter). Operation sequences (exhaustive to length 2/3, random to 8/30) are replayed on the "
+             "implementation and the model with exact comparison of t and both cached adjacency matrices after every step; constructor "
+             "shape checks modelled and compared.",
+        ref="DESIGN.md 6/C20",
+        note=NOTE + "NumPy aliasing is not modelled in Lean: the purity claim rests on the syntactic effect table plus before/after snapshots (search oracle).",
+        technique="Lean 4 proof (invariant by induction over operation lists; decide on the generated effect table) tied by AST translator and differential op-sequence driver"),
 }
 
 NOT_YET = {}
